@@ -85,3 +85,13 @@ func vPredictedInt(tag string) int {
 }
 
 func vSetMsMode(m int) {}
+
+// vImageObserve echoes the predicted image observations so that the native observation list lines up
+// with the engine's.
+func vImageObserve(dir string) {
+	for _, o := range vPredicted {
+		if strings.HasPrefix(o.Tag, "img") {
+			vObs = append(vObs, o)
+		}
+	}
+}
